@@ -109,3 +109,74 @@ def chunkings(rng, data, thorough=False):
     res.append([data[i:i + 24] for i in range(0, n, 24)])
     res.append([data[i:i + 7] for i in range(0, n, 7)])
     return res
+
+
+# ---- files for the indexer / reader properties (C08, C09, C10, C11, C18) -----------------------------------
+
+def small_payload_classes(maxlen):
+    return [x for x in class_payloads() if len(x[2]) + 24 <= maxlen]
+
+
+def file_token(rng, kind, seqs, maxmsg):
+    """One token of a mixed-content file, every real message <= maxmsg bytes."""
+    seq = seqs['n']
+    seqs['n'] = (seq + 1) & 0xFFFFFFFF
+    src = rng.choice([0, 0, 1])
+    small = small_payload_classes(maxmsg)
+    if kind == 'V' and small:
+        t, _, p, v = rng.choice(small)
+        return frame(t, p, seq, src, v)
+    if kind in 'VU':
+        n = rng.choice([0, 1, 4, 9, max(0, min(40, maxmsg - 24))])
+        return frame(rng.choice([9, 2999, 20001]), bytes(rng.randrange(256) for _ in range(n)), seq, src)
+    if kind == 'W':   # wrapper with nested complete message(s)
+        inner = frame(rng.choice([9, 13005]), bytes(rng.randrange(256) for _ in range(rng.choice([0, 2]))), seq, src)
+        pad = bytes(rng.randrange(256) for _ in range(rng.choice([0, 1, 3])))
+        if 24 + len(pad) + len(inner) > maxmsg:
+            return frame(9, b'', seq, src)
+        return frame(13120, pad + inner, seq, src)
+    if kind == 'C':
+        m = bytearray(file_token(rng, 'U', seqs, maxmsg))
+        i = rng.randrange(2, len(m))
+        m[i] ^= 1 << rng.randrange(8)
+        return bytes(m)
+    if kind == 'T':
+        m = file_token(rng, 'U', seqs, maxmsg)
+        return m[:rng.randrange(2, len(m))]
+    if kind == 'S':
+        return rng.choice([SYNC, b'\x2e', b'\x31\x2e', SYNC + SYNC])
+    if kind == 'F':
+        return SYNC + struct.pack('<HIBBHIII', rng.choice([0, 7]), rng.getrandbits(32), 2, 0, 9, 0,
+                                  rng.choice([0, 1, 5, 30, maxmsg, 1 << 24, (1 << 24) + 1, 0xFFFFFFFF]), 0)
+    if kind == 'J':
+        return bytes(rng.randrange(256) for _ in range(rng.choice([1, 2, 3, 7, 23, 24, 25, 30])))
+    if kind == 'Q':   # truncated message whose CRC field is the CRC of the truncated bytes (only meaningful at EOF)
+        m = bytearray(file_token(rng, 'U', seqs, maxmsg))
+        if len(m) <= 25:
+            m = bytearray(frame(9, bytes(5), seq, src))
+        cut = rng.randrange(25, len(m))
+        t = m[:cut]
+        struct.pack_into('<I', t, 4, zlib.crc32(bytes(t[8:])))
+        return bytes(t)
+    if kind == 'X':   # wrapper W; inside its payload a header H that with the two following real messages is CRC-valid
+        a = frame(9, bytes(rng.randrange(256) for _ in range(2)), seq, src)
+        b = frame(2999, b'', seq + 1, src)
+        hbody = struct.pack('<BBHIII', 2, 0, 9, 0, len(a) + len(b), 0)
+        h = SYNC + struct.pack('<HI', 0, zlib.crc32(hbody + a + b)) + hbody
+        pad = bytes(rng.randrange(256) for _ in range(rng.choice([0, 8, 30])))
+        w = frame(13120, pad + h, seq, src)
+        return w + a + b
+    raise ValueError(kind)
+
+
+def small_file(rng, ntokens, maxmsg, alphabet='VVUUWCTSFJ', pad=0):
+    seqs = {'n': 0}
+    parts = []
+    kinds = []
+    for _ in range(ntokens):
+        k = rng.choice(alphabet)
+        kinds.append(k)
+        parts.append(file_token(rng, k, seqs, maxmsg))
+        if pad and rng.random() < 0.5:
+            parts.append(bytes(rng.randrange(256) for _ in range(rng.randrange(pad))))
+    return b''.join(parts), ''.join(kinds)
